@@ -304,9 +304,10 @@ def gen_annotation(rng, residues=RES24, min_len=1, max_len=15, kinds=APRIORI, p=
     if has('static', static_p):
         rules = []
         for _ in range(rng.choice([1, 1, 2])):
-            tg = rng.choice(['N-Term', 'C-Term'] + list(set(seq)) + [rng.choice(residues)])
+            # literal residue targets only: condense_static_mods feeds the target to re.finditer (regex specials = other domain)
+            tg = rng.choice(['N-Term', 'C-Term'] + [c for c in set(seq) if c.isalnum()] + [rng.choice([c for c in residues if c.isalnum()])])
             if rng.random() < 0.3:
-                tg = tg + ',' + rng.choice(list(residues) + ['N-Term', 'C-Term'])
+                tg = tg + ',' + rng.choice([c for c in residues if c.isalnum()] + ['N-Term', 'C-Term'])
             body = ''
             for _ in range(rng.choice([1, 1, 2])):
                 m = mod()
